@@ -10,7 +10,7 @@ DECIDES = ('the value reaching lru_cache(maxsize=...) is an int for every value 
            'interface-compatible and every call through the pluggable slot passes exactly (degree, knot_vector, num_ctrlpts, knot) of one '
            'direction (AG4, AX1); every geometry constructor and the evaluator setter hand the object\'s span function to the evaluator (SP1); '
            'all 8 evaluator classes implement evaluate/derivatives with the common signature and read only keys the matching data '
-           'property produces (EV1, AG3); every `_kv_normalize` guard only adds a [0,1] range check or applies knotvector.normalize to the '
+           'property produces (EV1, AG3); every rational evaluator forwards all of its arguments, **kwargs included, to the same method of its parent (EV2); every `_kv_normalize` guard only adds a [0,1] range check or applies knotvector.normalize to the '
            'stored value (NK1); evaluation start/stop defaults are the domain ends of the same direction (DOM1); serial and parallel branches '
            'apply the same worker to the same arguments through the order-preserving Pool.map, results consumed in order (AG5); a '
            'sample-size setter/getter pair depends on the same state (UD1).')
@@ -37,6 +37,7 @@ def check(m, run):
     ag4(m, run)
     sp1(m, run)
     ev1_ag3(m, run)
+    ev2(m, run)
     nk1(m, run)
     dom1(m, run)
     ag5(m, run)
@@ -196,6 +197,36 @@ def ev1_ag3(m, run):
 
 
 # ---------------------------------------------------------------------------------------------- NK1
+def ev2(m, run):
+    """EV2: every rational evaluator computes on the homogeneous points by calling the same method of its non-rational parent with ALL
+    of its own arguments - positional ones in order and **kwargs (start / stop of the evaluated range) - and then projects; the three
+    rational classes agree on this"""
+    n = 0
+    for ck in sorted(k for k in m.classes if k[0] == 'evaluators' and k[1].endswith('Rational')):
+        ci = m.classes[ck]
+        for name in ('evaluate', 'derivatives'):
+            fi = ci.methods.get(name)
+            if fi is None:
+                continue
+            sup = [c for c in walk_no_nested(fi.node) if isinstance(c, ast.Call) and isinstance(c.func, ast.Attribute) and c.func.attr == name
+                   and isinstance(c.func.value, ast.Call) and norm(c.func.value.func) == 'super']
+            if len(sup) != 1:
+                raise AnalysisError('%s: call of the parent %s not found' % (fi.key, name))
+            c = sup[0]
+            ps = params_of(fi.node)[1:]
+            passed = [norm(a) for a in c.args] + ['%s=%s' % (k.arg, norm(k.value)) for k in c.keywords if k.arg]
+            pos_ok = [norm(a) for a in c.args] == ps[:len(c.args)] and all(('%s=%s' % (p_, p_)) in passed or p_ in [norm(a) for a in c.args] for p_ in ps)
+            kw_ok = fi.node.args.kwarg is None or any(k.arg is None and norm(k.value) == fi.node.args.kwarg.arg for k in c.keywords)
+            n += 1
+            run.ob('EV2.rational-evaluator-forwards-its-arguments', fi.key, pos_ok and kw_ok,
+                   'parent called with (%s%s)' % (', '.join(passed), ', **kwargs' if kw_ok and fi.node.args.kwarg else '') if pos_ok and kw_ok else
+                   'the parent %s is called with (%s)%s: %s' % (name, ', '.join(passed), '' if kw_ok else ' without **%s' % fi.node.args.kwarg.arg,
+                                                               'the requested start/stop range is ignored and the default range is evaluated' if not kw_ok else
+                                                               'an argument of the method does not reach the parent'), site(fi, c))
+    if n < 5:
+        raise AnalysisError('EV2: only %d rational evaluator methods found' % n)
+
+
 def nk1(m, run):
     def is_flag(e):
         return isinstance(e, ast.Attribute) and e.attr == '_kv_normalize'
